@@ -1569,3 +1569,45 @@ Proof.
     + rewrite lookup_unchanged; [exact R|]. apply (Hu height chunk). left. reflexivity.
 Qed.
 End Lookups.
+
+(* ------------------------------------------------------------------------------------------ *)
+(* open(): which checkpointed chunks count as present                                         *)
+(* ------------------------------------------------------------------------------------------ *)
+Section OpenMissing.
+Variable sha256 : bytes -> bytes.
+
+Lemma load_repair_missing c file : missing (load_repair sha256 c file) = [].
+Proof. destruct (open_linked_prefix sha256 c file) as (_ & _ & _ & _ & H & _). exact H. Qed.
+
+Lemma ensure_missing c s : missing (ensure_checkpointed_size c s) = missing s.
+Proof.
+  unfold ensure_checkpointed_size. destruct (max_key (checkpoints c)); [|reflexivity].
+  destruct (Nat.leb (hsize s) n); reflexivity.
+Qed.
+
+(* the set is computed from the FINAL buffer (after repair and re-padding): after open() every checkpointed
+   chunk either is flagged missing (and will be fetched before it is served) or hashes to its checkpoint *)
+Theorem open_missing_exact c file h e :
+  In (h, e) (checkpoints c) ->
+  let s := hopen sha256 c file in
+  In h (missing s) \/ dsha sha256 (read_n (io s) h CHUNK) = e.
+Proof.
+  intro Hin. cbn zeta. unfold hopen, get_all_missing. cbn [io missing].
+  set (s1 := ensure_checkpointed_size c (load_repair sha256 c file)).
+  assert (Hm : missing s1 = []) by (unfold s1; rewrite ensure_missing; apply load_repair_missing).
+  rewrite Hm. cbn [app existsb negb andb].
+  destruct (bytes_eqb (dsha sha256 (read_n (io s1) h CHUNK)) e) eqn:E.
+  - right. apply bytes_eqb_eq. exact E.
+  - left. apply in_map_iff. exists (h, e). split; [reflexivity|].
+    apply filter_In. split; [exact Hin|]. cbn [fst snd]. rewrite E. reflexivity.
+Qed.
+
+(* and a chunk flagged missing is never served without a fetch that hashes to the checkpoint *)
+Theorem missing_not_served c s height :
+  (exists e, lookup (chunk_start height) (checkpoints c) = Some e) ->
+  In (chunk_start height) (missing s) -> has_header sha256 c s height = false.
+Proof.
+  intros [e He] Hin. unfold has_header. rewrite He.
+  apply negb_false_iff. apply existsb_exists. exists (chunk_start height). split; [exact Hin | apply Nat.eqb_refl].
+Qed.
+End OpenMissing.
